@@ -551,6 +551,7 @@ func (x *Exec) registerLib() {
 	}
 	x.lib["(*github.com/cosmos72/gomacro/base/output.Output).Warnf"] = noeffect
 	x.lib["(*github.com/cosmos72/gomacro/base/output.Output).Debugf"] = noeffect
+	x.lib["github.com/cosmos72/gomacro/base/output.Debugf"] = noeffect
 	x.lib["(*github.com/cosmos72/gomacro/base/output.Stringer).Errorf"] = noret
 	x.lib["github.com/cosmos72/gomacro/base/output.Errorf"] = noret
 }
